@@ -239,7 +239,29 @@ func genCase(t *rapid.T) Case {
 	m := newModel()
 	touched := []string{}
 	nops := rapid.IntRange(1, 60).Draw(t, "nops")
+	// one case in twelve lives around one very long name (about 64 components and beyond: a table that
+	// keeps the set of prefix lengths in use in a machine word must not stop at the word size); such
+	// cases are short, every lookup walks the whole chain
+	var deepBase []string
+	if rapid.IntRange(0, 11).Draw(t, "deep") == 0 {
+		d := rapid.SampledFrom([]int{33, 62, 63, 64, 65, 70}).Draw(t, "deepdepth")
+		for i := 0; i < d; i++ {
+			deepBase = append(deepBase, "a")
+		}
+		nops = rapid.IntRange(1, 12).Draw(t, "deepnops")
+	}
 	pick := func(label string) string {
+		if deepBase != nil {
+			k := len(deepBase) + rapid.IntRange(-3, 3).Draw(t, label+"deepdelta")
+			p := append([]string{}, deepBase...)
+			for len(p) < k {
+				p = append(p, rapid.SampledFrom(alphabet).Draw(t, label+"deepc"))
+			}
+			if rapid.IntRange(0, 5).Draw(t, label+"deepshort") == 0 {
+				k = rapid.IntRange(0, 3).Draw(t, label+"deepk")
+			}
+			return join(p[:k])
+		}
 		// existing prefix, its parent, a child of it, or a fresh name
 		if len(touched) > 0 {
 			switch rapid.IntRange(0, 9).Draw(t, label+"how") {
@@ -327,6 +349,10 @@ func genCase(t *rapid.T) Case {
 	}
 	nq := rapid.IntRange(0, 6).Draw(t, "nq")
 	for i := 0; i < nq; i++ {
+		if deepBase != nil {
+			c.Queries = append(c.Queries, pick("q"))
+			continue
+		}
 		c.Queries = append(c.Queries, genName(t, 8, "q"))
 	}
 	c.Drain = rapid.Bool().Draw(t, "drain")
@@ -575,7 +601,7 @@ func execC05(c Case) (res evid.Result) {
 	return res
 }
 
-const ruleC05 = "rapid state-machine histories (<=60 ops: insert/update/remove/clear next hop, set/unset strategy) over names from {a,b,c}^0..7 applied to the name-tree FIB, the hash-table FIB (m drawn 1..6) and a reference map; after every op every name in the closure (prefixes of touched names, 1- and 2-component extensions, extra random names up to depth 8) is looked up in both tables and both listings are compared. Non-trivial: >=1 removal/clear/unset on a registered prefix that has a registered ancestor and a registered descendant AND >=1 queried name longer than m; distinct by hash of the case"
+const ruleC05 = "rapid state-machine histories (<=60 ops: insert/update/remove/clear next hop, set/unset strategy) over names from {a,b,c}^0..7 (one case in twelve: a short history around a name of 33..70 components) applied to the name-tree FIB, the hash-table FIB (m drawn 1..6) and a reference map; after every op every name in the closure (prefixes of touched names, 1- and 2-component extensions, extra random names up to depth 8) is looked up in both tables and both listings are compared. Non-trivial: >=1 removal/clear/unset on a registered prefix that has a registered ancestor and a registered descendant AND >=1 queried name longer than m; distinct by hash of the case"
 
 func TestC05Fib(t *testing.T) {
 	rec := evid.New("C05", "TestC05Fib", ruleC05)
